@@ -724,13 +724,13 @@ func report(prop, tier string, seed int64, results []*OblResult, knownAll map[st
 		samples = append(samples, smp)
 		assumptions = append(assumptions, r.Ob.Name+": "+r.Ob.Bounds)
 	}
-	var flist []string
+	flist := []string{}
 	for f := range funcs {
 		flist = append(flist, f)
 	}
 	sort.Strings(flist)
 	trusted, _ := os.ReadFile(filepath.Join(verifDir, "harness", "TRUSTED_BASE.txt"))
-	var tb []string
+	tb := []string{}
 	for _, l := range strings.Split(string(trusted), "\n") {
 		if strings.TrimSpace(l) != "" {
 			tb = append(tb, strings.TrimSpace(l))
